@@ -4,6 +4,7 @@ import Crv.Generated.Paths
 import Crv.Proofs.Paths
 import Crv.Proofs.PathsOps
 import Crv.Proofs.Disk
+import Crv.Proofs.PathsWalk
 /-!
 C12 — Crash consistency of disk storage.
 
@@ -133,6 +134,50 @@ theorem sweep_clean (id : Name) (fs : Fs) (hid : matchesTemp pathFacts id = fals
   refine ⟨fun n hn => restart_temp _ _ _ _ hn hid, fun n hn hne => restart_other _ _ _ _ hn hne, ?_⟩
   intro x hx
   rw [restart_live _ _ _ hid, hx]
+
+/-! ### The clean-up is a `filepath.Walk`
+
+`sweep` — the filter every statement of this file is about — is an idealisation of `DeleteTempFilesIfExist`, which walks
+work_dir with a callback. `startupSweep` is that walk (children in byte-wise lexical order, `SkipDir` semantics of
+`filepath.Walk`) with the two guards of the callback as the translator reads them from the source on every run. -/
+
+/-- The callback as regenerated: `deleteIfTempFileOrDir` is called for every entry except work_dir itself, `SkipDir` is
+returned for every directory except work_dir itself (and for nothing else). Any other shape breaks this obligation. -/
+theorem walk_guards_canonical : walkDeleteGuard = "nonroot" ∧ walkSkipGuard = "dir-nonroot" :=
+  Crv.Paths.walk_guards_canonical
+
+/-- With that callback the walk never stops early: it visits every child of work_dir and removes exactly those whose
+name matches the pattern, files and directories alike. -/
+theorem walk_visits_every_child (F : Facts) (l : List (Name × Node)) :
+    walkDeleted "nonroot" "dir-nonroot" F l = (l.filter (fun e => matchesTemp F e.1)).map (·.1) :=
+  Crv.Paths.walk_visits_every_child F l
+
+/-- **The walk of the source is the filter.** For every listing of work_dir, `DeleteTempFilesIfExist` with the
+regenerated callback shape leaves exactly what `sweep` leaves. -/
+theorem startup_walk_is_sweep (F : Facts) (fs : Fs) : startupSweep F fs = sweep F fs :=
+  Crv.Paths.startup_walk_is_sweep F fs
+
+/-- Hence `restart` (sweep, then the location's store is opened) is the restart with the real walk. -/
+theorem restart_is_walk (id : Name) (fs : Fs) :
+    restart pathFacts id fs = (Step.openStore id).apply (startupSweep pathFacts fs) := by
+  rw [Crv.Paths.startup_walk_is_sweep]; rfl
+
+/-- A callback that returns `SkipDir` for every entry, files included (guards "nonroot"/"nonroot"), is *not* the filter:
+in a work_dir with a plain file "a" and a temp-named directory "crl_x_tmp" the file is visited first, `SkipDir` for a
+non-directory makes Walk skip the rest of work_dir, and the temp-named directory survives (the walk changes nothing). -/
+theorem skip_on_files_leaves_residue :
+    walkSweep "nonroot" "nonroot" pathFacts residueFs = residueFs ∧
+    walkSweep "nonroot" "nonroot" pathFacts residueFs ≠ sweep pathFacts residueFs :=
+  Crv.Paths.skip_on_files_leaves_residue
+
+/-- A callback that never returns `SkipDir` (guards "nonroot"/"never") is not the filter either: Walk descends into the
+temp-named directory "crl_a_tmp" it has just removed, `lstat` fails there, the callback hands the error back and the walk
+is over; the temp-named file "crl_b_tmp" behind it survives. (Without a temp-named *directory* in work_dir such a callback
+does clean up: `Crv.Paths.walk_never_skip_without_temp_dirs`.) -/
+theorem descent_into_removed_dir_leaves_residue :
+    walkSweep "nonroot" "never" pathFacts abortFs = [([99, 114, 108, 95, 98, 95, 116, 109, 112], .file)] ∧
+    sweep pathFacts abortFs = [] :=
+  Crv.Paths.descent_into_removed_dir_leaves_residue
 
 /-- At every crash point nothing outside the four names of the operation has changed (other locations' stores, foreign files). -/
 theorem crash_others_untouched (sc : Scn) (fs : Fs) (steps : List Step)
